@@ -429,10 +429,11 @@ pub fn c36_end_to_end() {
                     continue;
                 }
             }
+            let base = json!({"engine": "hv_sim_a", "flow": name, "mode": "exhaustive", "input": inp.to_json()});
+            util::arm_abort_report(&prop, Some(&format!("C36|e2e:{name}|simulator-abort")), &base, rep.evaluations);
             let (traces, n, err) = case.exhaustive(inp);
             rep.count_n("executions_enumerated", n as u64);
             rep.count_n(&format!("executions:{name}"), n as u64);
-            let base = json!({"engine": "hv_sim_a", "flow": name, "mode": "exhaustive", "input": inp.to_json()});
             if let Some(e) = err {
                 rep.violation(
                     &format!("C36|e2e:{name}|{}", panic_class(&e)),
@@ -464,10 +465,11 @@ pub fn c36_end_to_end() {
             };
             let mut distinct_logs = BTreeSet::new();
             for bytes in byte_strings {
+                let base = json!({"engine": "hv_sim_a", "flow": name, "mode": "bytes", "input": inp.to_json(), "bytes": bytes});
+                util::arm_abort_report(&prop, Some(&format!("C36|e2e:{name}|simulator-abort")), &base, rep.evaluations);
                 let run = case.repro(&bytes, inp);
                 rep.eval();
                 rep.count("byte_driven_instances");
-                let base = json!({"engine": "hv_sim_a", "flow": name, "mode": "bytes", "input": inp.to_json(), "bytes": bytes});
                 let parsed = util::parse_log(&run.log);
                 rep.count_n("log_lines_parsed", parsed.lines as u64);
                 rep.count_n("ticks_in_logs", parsed.ticks().len() as u64);
@@ -677,10 +679,11 @@ pub fn c37_end_to_end() {
             {
                 continue;
             }
+            let base = json!({"engine": "hv_sim_a", "flow": name, "mode": "exhaustive", "input": inp.to_json()});
+            util::arm_abort_report(&prop, None, &base, rep.evaluations);
             let (traces, n, err) = case.exhaustive(inp);
             rep.eval();
             rep.count_n("executions_enumerated", n as u64);
-            let base = json!({"engine": "hv_sim_a", "flow": name, "mode": "exhaustive", "input": inp.to_json()});
             if err.is_some() {
                 // a crashing instance is C36's business; the space cannot be compared
                 rep.count("inputs_skipped_instance_failed");
